@@ -38,6 +38,26 @@ class ServerBacklogFull(RuntimeError):
         return f'Server is at capacity with {n} items in proces; new request is rejected after waiting for {x:.3f} seconds'
 
 
+class _StreamedRequest:
+    # What `Server.stream` and `AsyncServer.stream` hand to `fifo_stream` and
+    # `async_fifo_stream` for one element: waiting for its result observes
+    # the deadline of the request, as `call` does.
+    __slots__ = ('_server', '_fut')
+
+    def __init__(self, server, fut):
+        self._server = server
+        self._fut = fut
+
+    def result(self):
+        return self._server._wait_for_result(self._fut)
+
+    def __await__(self):
+        return self._server._wait_for_result(self._fut).__await__()
+
+    def cancel(self):
+        return self._fut.cancel()
+
+
 def _enter_server(self, gather_args: tuple = None):
     self._q_in = (
         _SimpleThreadQueue()
@@ -489,9 +509,13 @@ class Server:
         preprocessor
             See :func:`fifo_stream`.
         """
+
+        def enqueue(x, **kwargs):
+            return _StreamedRequest(self, self._enqueue(x, **kwargs))
+
         return fifo_stream(
             data_stream,
-            self._enqueue,
+            enqueue,
             name=f'{self.__class__.__name__}.worker_thread',
             return_x=return_x,
             return_exceptions=return_exceptions,
@@ -757,9 +781,13 @@ class AsyncServer:
 
         .. seealso:: :meth:`Server.stream`
         """
+
+        async def enqueue(x, **kwargs):
+            return _StreamedRequest(self, await self._enqueue(x, **kwargs))
+
         results = async_fifo_stream(
             data_stream,
-            self._enqueue,
+            enqueue,
             capacity=self._capacity,
             timeout=timeout,
             backpressure=False,
